@@ -119,6 +119,13 @@ def eq_val(a, b):
     return a == b
 
 
+def loosely_equal(a, b):
+    try:
+        return eq_val(a, b) or bool(a == b)
+    except Exception:
+        return False
+
+
 class RxWorld:
     name = 'rx'
     props = ('C09',)
@@ -192,7 +199,8 @@ class RxWorld:
     @staticmethod
     def gen_value(rng, t, valid):
         if t == 'int':
-            return rng.choice([1, 2, 3, 5, 7]) if valid else rng.choice([0, 0, -3, 'oops', 2.5])
+            # True and 1.0 compare equal to 1: an update that changes the type only
+            return rng.choice([1, 2, 3, 5, 7, 1, True, 1.0]) if valid else rng.choice([0, 0, -3, 'oops', 2.5])
         if t == 'list':
             return [rng.randint(1, 9) for _ in range(rng.randint(3, 5))] if valid else rng.choice([[], [4], None])
         if t == 'str':
@@ -467,7 +475,12 @@ class RxWorld:
                 raw.append(f)
                 roots.append(param.rx(f))
 
+        equal_updates = []      # inputs that were assigned a value comparing equal to the previous one but of another type
+
         def set_input(i, v):
+            if loosely_equal(vals[i], v) and not eq_val(vals[i], v):
+                equal_updates.append(i)
+                out.stats['probe.update_with_equal_value_of_another_type'] += 1
             vals[i] = v
             if inputs[i]['k'] == 'rx':
                 roots[i].rx.value = v
@@ -572,6 +585,9 @@ class RxWorld:
         def check_read(step, j, label):
             exp, got = plain(j), real(j)
             desc = {k: v for k, v in nodes[j].items() if k not in ('t', 'depth')}
+
+            def value_viol(j, label, desc, exp, got, step, detail):
+                viol('C09.value', step, detail)
             fb = fallback_nodes()
             if fb and (j in fb or depends_on(j, fb)) and exp != got:
                 # a pending attribute access (expr.attr not yet used by an operator) falls back to the object itself when the
@@ -586,7 +602,7 @@ class RxWorld:
                 viol('C09.value_missing_attribute_fallback', step, d_)
                 return False
             if exp[0] != got[0]:
-                viol('C09.value', step, f"{label} node {j} {desc}: reactive {'raised ' if got[0] == 'exc' else 'returned '}{got[1]!r}, plain Python "
+                value_viol(j, label, desc, exp, got, step, f"{label} node {j} {desc}: reactive {'raised ' if got[0] == 'exc' else 'returned '}{got[1]!r}, plain Python "
                                         f"{'raises ' if exp[0] == 'exc' else 'gives '}{exp[1]!r}; inputs {vals}")
                 return False
             if exp[0] == 'exc':
@@ -605,12 +621,12 @@ class RxWorld:
                     if got[1] in others:
                         out.stats['dontcare.which_of_several_failing_operands_surfaces'] += 1
                         return True
-                    viol('C09.value', step, f"{label} node {j} {desc}: reactive raised {got[1]}, plain Python raises {exp[1]}; inputs {vals}")
+                    value_viol(j, label, desc, exp, got, step, f"{label} node {j} {desc}: reactive raised {got[1]}, plain Python raises {exp[1]}; inputs {vals}")
                     return False
                 out.stats['fault.node_raised_as_python'] += 1
                 return True
             if not eq_val(exp[1], got[1]):
-                viol('C09.value', step, f"{label} node {j} {desc}: reactive value {got[1]!r}, plain Python {exp[1]!r}; inputs {vals}")
+                value_viol(j, label, desc, exp, got, step, f"{label} node {j} {desc}: reactive value {got[1]!r}, plain Python {exp[1]!r}; inputs {vals}")
                 return False
             return True
 
@@ -631,6 +647,7 @@ class RxWorld:
             if k == 'set':
                 i = op['i'] % len(inputs)
                 before = {j: plain(j) for j in watches}
+                n_equal_before = len(equal_updates)
                 try:
                     set_input(i, op['v'])
                     raised = None
@@ -646,10 +663,11 @@ class RxWorld:
                 if raised and not anybad:
                     viol('C09.watch', step, f"updating input {i} to {op['v']!r} raised {raised} although every watched expression evaluates in plain Python")
                     break
-                if not anybad:
+                if not anybad and not (equal_updates and equal_updates[-1] == i and n_equal_before != len(equal_updates)):
                     for j, seen in watches.items():
-                        if after[j][0] == 'ok' and (before[j][0] != 'ok' or not eq_val(before[j][1], after[j][1])):
-                            if not seen or not eq_val(seen[-1], after[j][1]):
+                        # (a value that compares equal to the previous one - 1, True, 1.0 - is no change the callback must hear of)
+                        if after[j][0] == 'ok' and (before[j][0] != 'ok' or not loosely_equal(before[j][1], after[j][1])):
+                            if not seen or not loosely_equal(seen[-1], after[j][1]):
                                 viol('C09.watch', step, f"after input {i} = {op['v']!r} the value of watched node {j} is {after[j][1]!r} but the callback last "
                                                         f"received {seen[-1] if seen else '<nothing>'!r}")
                                 break
